@@ -17,6 +17,11 @@ structure WHist where
   pending : Option (KV × String) := none
   /-- vAMM states seen so far in this history (for the C01 quote-recovery check) -/
   seen : List (Nat × Vamm.State) := []
+  /-- successful liquidations of this history: (vamm, block height) -/
+  liqLog : List (Nat × Nat) := []
+  /-- for search mini-histories: the source history and its log (so that consecutive mini-histories share it) -/
+  srcOf : Option Nat := none
+  baseLog : List (Nat × Nat) := []
 
 def txKind (kv : KV) : String := kv.str "msg"
 
@@ -127,8 +132,17 @@ def errTag (e : Err) : String :=
   | .overflow => "overflow" | .divZero => "divzero" | .panic => "panic" | .unauthorized => "unauthorized"
   | .guard c => s!"guard{c}" | .subcall c => s!"subcall{c}"
 
-def handleWCfg (acc : Acc) (kv : KV) (_line : String) : Acc × WHist :=
-  (acc, { alive := kv.bool "setup_ok", hist := kv.nat "h" })
+/-- `src=<h>:<k>:…` on a search mini-history: the history it continues -/
+def srcHist (kv : KV) : Option Nat :=
+  match kv.get? "src" with
+  | some s => (s.splitOn ":").head?.bind (·.toNat?)
+  | none => none
+
+def handleWCfg (acc : Acc) (prev : WHist) (kv : KV) (_line : String) : Acc × WHist :=
+  -- a search mini-history inherits the liquidation log of the history it continues
+  let log := if srcHist kv == some prev.hist || (kv.get? "src").isSome && prev.srcOf == srcHist kv then prev.liqLog else []
+  (acc, { alive := kv.bool "setup_ok", hist := kv.nat "h", liqLog := log, baseLog := log,
+          srcOf := match srcHist kv with | some h => some h | none => none })
 
 def handleWTx (acc : Acc) (h : WHist) (kv : KV) (line : String) : Acc × WHist :=
   (acc, { h with pending := some (kv, line) })
@@ -143,7 +157,9 @@ def handleWObs (acc : Acc) (h : WHist) (kv : KV) (_line : String) : Acc × WHist
   | some (tkv, tline) =>
     let acc := { acc with checked := acc.checked + 1 }
     let kind := txKind tkv
-    let next : WHist := { h with last := obs, pending := none,
+    let liqLog := if tkv.str "msg" == "liq" && tkv.bool "ok" && (tkv.get? "fault").all (· == "none")
+      then (tkv.nat "v", tkv.nat "height") :: h.liqLog else h.liqLog
+    let next : WHist := { h with last := obs, pending := none, liqLog := liqLog,
                                  seen := if h.seen.length < 200 then obs.w.vamms.map (fun p => (p.1, p.2.st)) ++ h.seen else h.seen }
     match parseTx tkv with
     | none => (acc.report "DISAGREE" "C08" s!"unparsed-tx:{kind}" tline, next, none)
@@ -154,7 +170,8 @@ def handleWObs (acc : Acc) (h : WHist) (kv : KV) (_line : String) : Acc × WHist
       let ok := tkv.bool "ok"
       let step : Step :=
         { pre := h.last.w, post := obs.w, env := env, sender := sender, funds := funds, tx := tx, ok := ok,
-          xfers := parseXfers (tkv.str "xf"), residue := obs.tmp || obs.sent || obs.liq }
+          xfers := parseXfers (tkv.str "xf"), residue := obs.tmp || obs.sent || obs.liq,
+          liqsThisBlock := (h.liqLog.filter (fun p => p.2 == env.height)).map (·.1) }
       -- fault-injected execution (harness `fault` mode): only C08 is meaningful — the injected
       -- failure must fail the whole call and leave every contract's storage and every balance as before
       let faulted := match tkv.get? "fault" with | some f => f != "none" && tkv.bool "fired" | none => false
